@@ -29,7 +29,7 @@ def tokenize(source: str):
         token = field(scanner, ctx) or \
             repeater_placeholder(scanner) or \
             repeater_number(scanner) or \
-            repeater(scanner) or \
+            (is_allowed_repeater(ch, ctx) and repeater(scanner)) or \
             white_space(scanner) or \
             literal(scanner, ctx) or \
             operator(scanner) or \
